@@ -40,6 +40,15 @@ REGISTRY = {
 }
 
 
+# ids whose digits concatenate to the same string ("1"+"1"+"23" == "1"+"12"+"3" == "11"+"2"+"3"): distinct keys all the same
+COLLIDE_NODE1_KEYS = ((1, 1, 23), (1, 12, 3), (1, 1, 2), (1, 12, 23))
+COLLIDE_OTHER_KEY = (11, 2, 3)
+COLLIDE_REGISTRY = {
+    "1": {"sleeping": True, "children": {"1": {"child_type": 3}, "12": {"child_type": 3}}},
+    "11": {"sleeping": True, "children": {"2": {"child_type": 3}}},
+}
+
+
 def budgets(tier: str) -> dict:
     if tier == "quick":
         return {"examples": 12, "shards": 4, "enum_shards": 12}
@@ -67,6 +76,10 @@ def enumerate_cases(tier: str):
             yield {"version": version, "parked": 2, "other_parked": 0, "senders": [[1, True], [1, True, "req"]]}
             yield {"version": version, "parked": 1, "other_parked": 0, "senders": [[0, True, "req"]]}
             yield {"version": version, "parked": 1, "other_parked": 0, "senders": [[0, True], [0, True, "dup"], [0, True]]}
+            for senders in ([[0, True]], [[1, True]], [[3, True]], [["other", True]], [[0, True], [1, True]]):
+                yield {"version": version, "parked": 2, "other_parked": 1, "senders": senders, "keys": "collide"}
+                yield {"version": version, "parked": 2, "other_parked": 0, "senders": senders, "prior": True}
+            yield {"version": version, "parked": 3, "other_parked": 1, "senders": [[2, True], [0, True]], "keys": "collide", "prior": True}
             for senders in ([[0, True, "ack"]], [[1, True, "ack"]], [[1, True, "ack"], [0, True]], [[1, True], [1, True, "ack"]], [[2, True, "ack"], [1, False, "ack"]]):
                 yield {"version": version, "parked": 3, "other_parked": 0, "senders": senders}
             for senders in ([[0, True]], [[1, True]], [[1, True], [0, True]], [[3, True], [1, False]]):
@@ -95,6 +108,8 @@ def strategy(tier: str):
             "senders": st.lists(sender, min_size=1, max_size=3),
             "represented": st.booleans(),
             "reported": st.booleans(),
+            "keys": st.sampled_from(("plain", "collide")),
+            "prior": st.booleans(),
         }
     )
 
@@ -153,10 +168,12 @@ async def _run_schedule(case: dict, schedule: list[int]) -> tuple[Outcome | None
     wake_type = 32 if version == "2.2" else 22
     transport = GatedTransport()
     gateway, _ = env.make_gateway(version, transport=transport)
-    registry = REGISTRY
+    collide = case.get("keys") == "collide"
+    NODE1_KEYS, OTHER_KEY = (COLLIDE_NODE1_KEYS, COLLIDE_OTHER_KEY) if collide else (globals()["NODE1_KEYS"], globals()["OTHER_KEY"])
+    registry = COLLIDE_REGISTRY if collide else REGISTRY
     if case.get("reported"):
         # both children of node 1 have already reported "s0" for both value types: a send of "s0" looks redundant
-        registry = {k: dict(v, children={c: dict(cv, values={"0": "s0", "2": "s0"}) for c, cv in v["children"].items()}) for k, v in REGISTRY.items()}
+        registry = {k: dict(v, children={c: dict(cv, values={"0": "s0", "2": "s0", "3": "s0", "23": "s0"}) for c, cv in v["children"].items()}) for k, v in registry.items()}
     env.install_registry(gateway.nodes, registry)
     sends: list[dict] = []  # {key, value, inv, comp}
     listen_tick: list = [None]
@@ -177,11 +194,20 @@ async def _run_schedule(case: dict, schedule: list[int]) -> tuple[Outcome | None
         return result
 
     k = case["parked"]
+    if case.get("prior"):
+        # earlier, quiet wake cycles already delivered the very values the racing senders will send again
+        for idx, sender in enumerate(case["senders"]):
+            if sender[0] != "other" and sender[1] and not (len(sender) > 2 and sender[2] in ("dup", "req")):  # (buffered senders only: a written value must be attributable)
+                await do_send(NODE1_KEYS[sender[0]], f"s{idx}", True)
+        await env.rx(gateway, f"1;255;3;0;{wake_type};5\n")
+        if any(rec["parked"] for rec in sends) and not transport.calls:
+            return Outcome(ok=True, classes=("diverged-elsewhere",)), [], {}
+    prior_calls = len(transport.calls)
     for idx in range(k):
         await do_send(NODE1_KEYS[idx], f"p{idx}", True)
     if case.get("other_parked"):
         await do_send(OTHER_KEY, "po", True)
-    if transport.calls:
+    if len(transport.calls) != prior_calls:
         return Outcome(ok=True, classes=("diverged-elsewhere",)), [], {}
     transport.gating = True
 
@@ -267,7 +293,7 @@ async def _run_schedule(case: dict, schedule: list[int]) -> tuple[Outcome | None
             sig = f"leak:{env.exc_sig(value)}" if status == "leak" else f"task-raised:{type(value).__name__}"
             return fail(sig, f"schedule {trace}: {value!r}"), factors, info
     transport.gating = False
-    for node in (1, 2):
+    for node in (1, OTHER_KEY[0]):
         status, value = await env.rx(gateway, f"{node};255;3;0;{wake_type};5\n")
         if status != "ok":
             return fail(f"final-wake-raised:{type(value).__name__}", f"schedule {trace}: {value!r}"), factors, info
